@@ -52,7 +52,9 @@ def make_inputs(rng, kind):
     """-> (files: name->bytes, inputs: argv file list, compile_ok, inputs_ok, modules)"""
     if kind == "valid_single":
         prog = pngen.generate(rng, n_funcs=rng.randint(2, 6))
-        return {"main.pn": prog.single_file().encode()}, ["main.pn"], True, True, ["main.pn"]
+        # source files need not be called *.pn
+        name = rng.choice(["main.pn"] * 5 + ["prog.penne", "prog", "my.prog.txt", "sub/dir/deep.pn"])
+        return {name: prog.single_file().encode()}, [name], True, True, [name]
     if kind in ("valid_multi", "invalid_multi"):
         prog = pngen.generate(rng, n_funcs=rng.randint(3, 7))
         sp = pngen.random_split(prog, rng, k=rng.choice([2, 3]))
@@ -124,7 +126,7 @@ def make_scenario(rng, sub=None, input_kind=None, force=None):
         if od_kind == "stale":
             # an earlier emit left artefacts behind (newer than the sources)
             for m in modules:
-                rel = (m[:-3] if m.endswith(".pn") else m) + ".pn.ll"
+                rel = artefact_rel(m)
                 sc["pre_files"][os.path.join("out", rel)] = ("; ModuleID = '%s'\n; stale artefact of an earlier emit\n" % m).encode()
         sc["opts"] += ["--out-dir", sc["out_dir"]]
     if sub in ("build", "build_default", "emit") and opt("wasm", 0.12):
@@ -220,6 +222,15 @@ def make_scenario(rng, sub=None, input_kind=None, force=None):
     return sc
 
 
+def artefact_rel(module):
+    """`out_dir.join(module).set_extension("pn.ll")`: the last extension of the
+    file name, if any, is replaced."""
+    d, base = os.path.split(module)
+    if "." in base.lstrip("."):
+        base = base.rsplit(".", 1)[0]
+    return os.path.join(d, base + ".pn.ll")
+
+
 def argv_of(sc):
     sub = {"build": ["build"], "build_default": [], "run": ["run"], "emit": ["emit"]}[sc["sub"]]
     return [PENNE] + sub + sc["opts"] + sc["inputs"]
@@ -229,9 +240,7 @@ def expected_output_path(sc):
     if sc.get("dash_o"):
         return sc["dash_o"]
     first = os.path.basename(sc["inputs"][0])
-    base = first[:-3] if first.endswith(".pn") else first
-    if "." in first:
-        base = first.rsplit(".", 1)[0]
+    base = first.rsplit(".", 1)[0] if "." in first.lstrip(".") else first
     name = base + (".wasm" if sc["wasm"] else "." + ARCH)
     return os.path.join(sc["out_dir"], name) if sc["out_dir"] else name
 
@@ -451,7 +460,7 @@ def judge(sc, obs, census, plan_kind, benign, self_census=False):
     if ok_exit:
         if sc["out_dir"] and sc["compile_ok"] and sc["inputs_ok"]:
             for m in sc["modules"]:
-                rel = (m[:-3] if m.endswith(".pn") else m) + ".pn.ll"
+                rel = artefact_rel(m)
                 data = obs["artefacts"].get(rel)
                 if data is None:
                     viol.append(("artefact_missing", "exit 0 but %s/%s does not exist" % (sc["out_dir"], rel)))
@@ -686,7 +695,7 @@ def _fs_variant_job(args):
         sub = "build"
     sc = make_scenario(rng, sub, "valid_multi", force)
     sc["name"] = "fs:%s:%s" % (variant, sub)
-    first = (sc["modules"][0][:-3]) + ".pn.ll"
+    first = artefact_rel(sc["modules"][0])
     expect_fail = True
     if variant == "artefact_is_directory":
         sc["pre_dirs"].append(os.path.join("out", first))
